@@ -1091,8 +1091,42 @@ func misbehave(e *Env) {
 		e.S.Count("probe.recovery-function-configured-after-the-handlers")
 		s.c.Config().Recover = recoverFn
 	}
+	// the client's own events have handlers that go wrong too: of several
+	// REGISTER and CONNECTED handlers some panic, the others run all the same
+	var ownRan []int
+	var ownPanics []bool
+	ownName := []string{client.REGISTER, client.CONNECTED}[g.Intn(2)]
+	if g.Pct(30) {
+		e.S.Count("probe.panicking-handlers-for-the-client's-own-events")
+		for k := g.Range(2, 5); k > 0; k-- {
+			i := len(ownRan)
+			ownRan = append(ownRan, 0)
+			ownPanics = append(ownPanics, g.Pct(45))
+			fn := client.HandlerFunc(func(c *client.Conn, l *client.Line) {
+				ownRan[i]++
+				if ownPanics[i] {
+					panic(fmt.Sprintf("%s handler %d panics", ownName, i))
+				}
+			})
+			if g.Pct(25) {
+				s.c.HandleBG(ownName, fn)
+			} else {
+				s.c.Handle(ownName, fn)
+			}
+		}
+	}
 	if !s.connect() {
 		return
+	}
+	if len(ownRan) > 0 {
+		simrt.Settle(time.Second)
+		e.Check()
+		for i, n := range ownRan {
+			if n != 1 {
+				e.Violation("sibling-or-later-not-run", "%d handlers are registered for %s, those panicking: %v; after Connect and the welcome handler %d has run %d times, want 1 (runs: %v)", len(ownRan), ownName, ownPanics, i, n, ownRan)
+				return
+			}
+		}
 	}
 	errBefore := 0
 	for _, r := range e.Log.Recs {
@@ -1523,6 +1557,21 @@ func handlerHistory(e *Env) {
 		for k := g.Range(0, 4); k > 0; k-- {
 			register(nm, g.Bool(), false, "main")
 		}
+	}
+	// a background handler that takes for ever over one event (it is still at it
+	// when the run ends): background dispatch of every later event goes ahead
+	histOver := false
+	defer func() { histOver = true }()
+	if g.Pct(20) {
+		e.S.Count("probe.background-handler-still-running-while-later-events-arrive")
+		parked := false
+		s.c.HandleBG(names[0], client.HandlerFunc(func(*client.Conn, *client.Line) {
+			if parked {
+				return
+			}
+			parked = true
+			simrt.Block("parked-bg", "the end of the run", func() bool { return histOver })
+		}))
 	}
 	// several one-shot handlers of one name that all remove themselves during the
 	// same event: they run side by side, so their removals meet in the handler
